@@ -386,7 +386,7 @@ func (m *ssMRec) finish(end ssEnd, extra []wire.Pkt) *ssMTrace {
 		}
 	}
 	m.t.Z = 1
-	if !rsKind && (end.Mode == "eof" || end.Mode == "noreply") {
+	if !rsKind && end.cleanEOF() {
 		m.t.Z = 0
 	}
 	if rsKind {
